@@ -1008,6 +1008,18 @@ var scenarioTable = map[string]func(s *sc){
 		s.flush(func(p pending, k string) bool { return k == "VC" && p.to == 1 })
 		s.flush(any)
 	},
+	// C05 (seeded change Q06): nothing of view 0 arrives; the transport reports a FAILURE for n2's VIEW_CHANGE to the leader of view 1;
+	// n0 and n1 time out as well (Byzantine n3 silent).  n2's vote is lost, but n2 itself must be in view 1 with its timer armed: the
+	// two others cannot elect anybody without it, so a member that left the election without a timer stalls the height for ever.
+	"view_change_send_fails_at_a_member_whose_vote_every_later_election_needs": func(s *sc) {
+		s.startNodes()
+		s.dropAll(any)
+		s.node(2).failNext = "VC"
+		s.timeout(2)
+		s.timeout(0)
+		s.timeout(1)
+		s.flush(any)
+	},
 	// C07 / C04 (the block travels outside every signature): the honest n0 proposes A in view 0 and everybody accepts it; the PREPAREs are
 	// lost; everybody times out.  The Byzantine n1 leads view 1: its NEW_VIEW carries the genuine lock-free votes and a PREPREPARE signed
 	// for hash(A) again - but ANOTHER block X is attached.  A member that holds the proposal (0, A) must still have the attached block
@@ -1234,7 +1246,8 @@ func scenarioByz(name string) []int {
 		return nil
 	case "lagging_member_with_foreign_instance_prepare_in_its_future_cache", "byzantine_commit_for_another_hash_before_two_genuine_commits",
 		"byzantine_commit_with_share_copied_from_a_genuine_commit", "vote_with_genuine_proof_and_another_block_to_a_leader_holding_the_proposal",
-		"commit_broadcast_fails_when_becoming_prepared_then_timeout", "new_view_broadcast_reports_a_failure_then_votes_of_that_view_arrive_again":
+		"commit_broadcast_fails_when_becoming_prepared_then_timeout", "new_view_broadcast_reports_a_failure_then_votes_of_that_view_arrive_again",
+		"view_change_send_fails_at_a_member_whose_vote_every_later_election_needs":
 		return []int{3}
 	case "member_without_weight_leads_its_view":
 		return []int{4}
